@@ -570,6 +570,8 @@ class StackWorld(object):
       if want is None:
         # drop/close/reset/garbage/half: no well-formed reply was sent for this call
         if o in ('value', 'declared', 'appexc', 'servererror') and K in ('drop', 'close', 'reset', 'muted'):
+          REC.violation('C01', 'completed_with_foreign_reply',
+                        'call %s completed with %s but its server never replied to it (%s)' % (c.id, o, K))
           REC.violation('C02', 'reply_never_sent',
                         'call %s completed with %s but its server never replied (%s)' % (c.id, o, K))
         continue
@@ -585,6 +587,8 @@ class StackWorld(object):
           REC.violation('C14', 'void_not_none',
                         'call %s (void method) returned %r instead of None' % (c.id, obj))
         elif not self.values_equal(obj, exp):
+          REC.violation('C01', 'completed_with_foreign_reply',
+                        'call %s (%s) completed with %r, which is not the reply to that call (%r)' % (c.id, c.method, obj, exp))
           REC.violation('C02', 'wrong_value',
                         'call %s (%s) returned %r; the server produced %r for that request' % (c.id, c.method, obj, exp),
                         {'method': c.method})
